@@ -132,12 +132,24 @@ class Anchor:
 
 
 class Scenario:
+    noise = None       # "before" | "after": every relationship part also lists relationships of all the OTHER standard kinds of its source
+                       # part (a worksheet: vmlDrawing, comments, hyperlink ...), before / after the picture relationships
+    manifest = None    # ODF: None = empty manifest | "typed" | "untyped" (pictures listed with media-type="") | "absent"
+    strict = False     # relationship types of the Strict namespace (purl.oclc.org/ooxml) instead of the Transitional one
+
     def __init__(self, fmt, units, media, note=""):
         self.fmt, self.units, self.media, self.note = fmt, units, media, note   # units: list[list[Anchor]], media: {part: bytes}
 
     def describe(self):
-        return {"format": self.fmt, "units": [[a.key() for a in u] for u in self.units],
-                "media": {k: {"bytes": len(v), "declared_size": declared_size(v)} for k, v in self.media.items()}, "note": self.note}
+        d = {"format": self.fmt, "units": [[a.key() for a in u] for u in self.units],
+             "media": {k: {"bytes": len(v), "declared_size": declared_size(v)} for k, v in self.media.items()}, "note": self.note}
+        if self.noise:
+            d["relationships_of_other_kinds"] = self.noise
+        if self.strict:
+            d["relationship_namespace"] = "strict"
+        if self.manifest:
+            d["odf_manifest"] = self.manifest
+        return d
 
 
 def zip_bytes(files, first=None):
@@ -162,6 +174,25 @@ def rels_xml(rels):
     return f'<?xml version="1.0" encoding="UTF-8"?><Relationships {RELNS}>{rows}</Relationships>'
 
 
+def with_noise(sc, part, kind, src_dir, rels, files):
+    """The relationship rows of a source part of kind `part` (worksheet / drawing / document / presentation) whose picture rows are
+    `rels`: with sc.noise, relationships of every other standard kind (contracts/c14_reltypes) are listed before / after them, each with
+    a small XML part of its own as target."""
+    if not sc.noise:
+        return rels
+    from contracts import c14_reltypes as RT
+    rows = []
+    for k, t in enumerate(RT.others(part, kind, strict=sc.strict)):
+        files[f"{src_dir}/other/{part}{k}.xml"] = '<?xml version="1.0"?><x/>'
+        rows.append((f"rIdN{part[:2]}{k}", t, f"other/{part}{k}.xml", False))
+    return rows + rels if sc.noise == "before" else rels + rows
+
+
+def rel_t(sc, kind):
+    from contracts import c14_reltypes as RT
+    return (RT.STRICT if sc.strict else RT.TRANSITIONAL) + kind
+
+
 def target_of(a, src_dir, media_dir):
     if a.kind == "external":
         return "http://example.invalid/" + a.media.rsplit("/", 1)[-1], True
@@ -175,12 +206,12 @@ def build_pptx(sc):
     ids, prels = [], []
     for n, anchors in enumerate(sc.units, start=1):
         ids.append(f'<p:sldId id="{255 + n}" r:id="rId{n}"/>')
-        prels.append((f"rId{n}", "http://schemas.openxmlformats.org/officeDocument/2006/relationships/slide", f"slides/slide{n}.xml", False))
+        prels.append((f"rId{n}", rel_t(sc, "slide"), f"slides/slide{n}.xml", False))
         pics, rels = [], []
         for j, a in enumerate(anchors, start=1):
             tg, ext = target_of(a, "ppt/slides", "ppt/media")
             if a.kind != "dangling":
-                rels.append((f"rId{j}", IMG_T, tg, ext))
+                rels.append((f"rId{j}", rel_t(sc, "image"), tg, ext))
             pics.append(f'<p:pic><p:nvPicPr><p:cNvPr id="{j + 1}" name="Pic {j}" descr="d{j}"/><p:cNvPicPr/><p:nvPr/></p:nvPicPr>'
                         f'<p:blipFill><a:blip r:embed="rId{j}"/></p:blipFill>'
                         f'<p:spPr><a:xfrm><a:off x="{j * 1000}" y="{j * 1000}"/><a:ext cx="95250" cy="190500"/></a:xfrm></p:spPr></p:pic>')
@@ -188,7 +219,7 @@ def build_pptx(sc):
                                              f'{"".join(pics)}</p:spTree></p:cSld></p:sld>')
         files[f"ppt/slides/_rels/slide{n}.xml.rels"] = rels_xml(rels)
     files["ppt/presentation.xml"] = f'<?xml version="1.0"?><p:presentation {P} {R}><p:sldIdLst>{"".join(ids)}</p:sldIdLst></p:presentation>'
-    files["ppt/_rels/presentation.xml.rels"] = rels_xml(prels)
+    files["ppt/_rels/presentation.xml.rels"] = rels_xml(with_noise(sc, "presentation", "slide", "ppt", prels, files))
     files.update(sc.media)
     return zip_bytes(files)
 
@@ -205,13 +236,14 @@ def build_docx(sc):
             j += 1
             tg, ext = target_of(a, "word", "word/media")
             if a.kind != "dangling":
-                rels.append((f"rId{j}", IMG_T, tg, ext))
+                rels.append((f"rId{j}", rel_t(sc, "image"), tg, ext))
             paras.append(f'<w:p><w:r><w:drawing><wp:inline><wp:extent cx="95250" cy="190500"/><a:graphic><a:graphicData>'
                          f'<pic:pic><pic:nvPicPr><pic:cNvPr id="{j}" name="Pic {j}" descr="d{j}"/></pic:nvPicPr>'
                          f'<pic:blipFill><a:blip r:embed="rId{j}"/></pic:blipFill></pic:pic></a:graphicData></a:graphic></wp:inline></w:drawing></w:r></w:p>')
     files = {"[Content_Types].xml": '<?xml version="1.0"?><Types xmlns="http://schemas.openxmlformats.org/package/2006/content-types"/>',
              "word/document.xml": f'<?xml version="1.0"?><w:document {W} {WP} {A} {PIC} {R}><w:body><w:p><w:r><w:t>text</w:t></w:r></w:p>{"".join(paras)}</w:body></w:document>',
-             "word/_rels/document.xml.rels": rels_xml(rels)}
+             }
+    files["word/_rels/document.xml.rels"] = rels_xml(with_noise(sc, "document", "image", "word", rels, files))
     files.update(sc.media)
     return zip_bytes(files)
 
@@ -233,18 +265,18 @@ def build_xlsx(sc):
         files[f"xl/worksheets/sheet{n}.xml"] = (f'<?xml version="1.0"?><worksheet {M} {R}><sheetData><row r="1"><c r="A1" t="inlineStr"><is><t>v{n}</t></is></c></row></sheetData>'
                                                 f'{drawing}</worksheet>')
         if anchors:
-            files[f"xl/worksheets/_rels/sheet{n}.xml.rels"] = rels_xml([("rId1", "http://schemas.openxmlformats.org/officeDocument/2006/relationships/drawing",
-                                                                         f"../drawings/drawing{n}.xml", False)])
+            files[f"xl/worksheets/_rels/sheet{n}.xml.rels"] = rels_xml(with_noise(sc, "worksheet", "drawing", "xl/worksheets",
+                                                                                  [("rId1", rel_t(sc, "drawing"), f"../drawings/drawing{n}.xml", False)], files))
             rels, pics = [], []
             for j, a in enumerate(anchors, start=1):
                 tg, ext = target_of(a, "xl/drawings", "xl/media")
                 if a.kind != "dangling":
-                    rels.append((f"rId{j}", IMG_T, tg, ext))
+                    rels.append((f"rId{j}", rel_t(sc, "image"), tg, ext))
                 pics.append(f'<xdr:oneCellAnchor><xdr:from><xdr:col>{j}</xdr:col><xdr:colOff>0</xdr:colOff><xdr:row>{j}</xdr:row><xdr:rowOff>0</xdr:rowOff></xdr:from>'
                             f'<xdr:pic><xdr:nvPicPr><xdr:cNvPr id="{j}" name="Pic {j}" descr="d{j}"/><xdr:cNvPicPr/></xdr:nvPicPr>'
                             f'<xdr:blipFill><a:blip r:embed="rId{j}"/></xdr:blipFill><xdr:spPr/></xdr:pic><xdr:clientData/></xdr:oneCellAnchor>')
             files[f"xl/drawings/drawing{n}.xml"] = f'<?xml version="1.0"?><xdr:wsDr {XDR} {A} {R}>{"".join(pics)}</xdr:wsDr>'
-            files[f"xl/drawings/_rels/drawing{n}.xml.rels"] = rels_xml(rels)
+            files[f"xl/drawings/_rels/drawing{n}.xml.rels"] = rels_xml(with_noise(sc, "drawing", "image", "xl/drawings", rels, files))
     files["xl/workbook.xml"] = f'<?xml version="1.0"?><workbook {M} {R}><sheets>{"".join(sheets)}</sheets></workbook>'
     files["xl/_rels/workbook.xml.rels"] = rels_xml(wrels)
     files["_rels/.rels"] = rels_xml([("rId1", "http://schemas.openxmlformats.org/officeDocument/2006/relationships/officeDocument", "xl/workbook.xml", False)])
@@ -294,6 +326,18 @@ def build_odf(sc):
         body = "<office:spreadsheet>" + "".join(tabs) + "</office:spreadsheet>"
     files = {"content.xml": f'<?xml version="1.0"?><office:document-content {ODFNS}><office:body>{body}</office:body></office:document-content>',
              "META-INF/manifest.xml": '<?xml version="1.0"?><manifest:manifest xmlns:manifest="urn:oasis:names:tc:opendocument:xmlns:manifest:1.0"/>'}
+    if sc.manifest in ("typed", "untyped"):
+        # the manifest lists every member: "typed" with its media type (LibreOffice), "untyped" with media-type="" for the pictures
+        # (OpenOffice.org and several converters write the Pictures/ entries that way)
+        rows = [f'<manifest:file-entry manifest:full-path="/" manifest:media-type="{ODF_MIME[fmt]}"/>',
+                '<manifest:file-entry manifest:full-path="content.xml" manifest:media-type="text/xml"/>']
+        for part in sc.media:
+            mt = CT.get(part.rsplit(".", 1)[-1].lower(), "") if sc.manifest == "typed" else ""
+            rows.append(f'<manifest:file-entry manifest:full-path="{part}" manifest:media-type="{mt}"/>')
+        files["META-INF/manifest.xml"] = ('<?xml version="1.0"?><manifest:manifest xmlns:manifest="urn:oasis:names:tc:opendocument:xmlns:manifest:1.0">'
+                                          + "".join(rows) + "</manifest:manifest>")
+    elif sc.manifest == "absent":
+        del files["META-INF/manifest.xml"]
     files.update(sc.media)
     return zip_bytes(files, first=("mimetype", ODF_MIME[fmt]))
 
@@ -860,6 +904,13 @@ def witness(kind, fmt):
         if fmt == "pdf":
             return first_failure([pdf_scenario([[(30, 20)], [(31, 21), (32, 22)]])], ("numbering",))
         return first_failure([simple(fmt, ["relative"], n_units=2, per_unit=2)], ("numbering",))
+    if kind == "shared-media":
+        # formats that report an embedded member once however many frames show it: the same picture in two / three plain frames, alone and
+        # between other pictures -> one image per embedded file, numbered 1..n
+        out = []
+        for units in ([[Anchor(f"{md}/a.png"), Anchor(f"{md}/a.png")]], [[Anchor(f"{md}/a.png"), Anchor(f"{md}/b.gif"), Anchor(f"{md}/a.png"), Anchor(f"{md}/a.png")]]):
+            out.append(Scenario(fmt, units if fmt != "odg" else [units[0][:2], units[0][2:]], {f"{md}/a.png": A, f"{md}/b.gif": B}, note="one embedded picture shown by several frames"))
+        return first_failure(out, ("resolution", "bytes", "numbering"), dedup=True)
     if kind == "gap-missing":
         sc = Scenario(fmt, [[Anchor(f"{md}/m.png", "relative", "missing"), Anchor(f"{md}/a.png")]], {f"{md}/a.png": A})
         return first_failure([sc], ("numbering",))
@@ -1080,6 +1131,10 @@ def search(ob, wit=None):
         return check_resolver("_normalize_relative_path") or witness("resolution", "pptx")
     if "_resolve_drawing_path" in ob:
         return check_resolver("_resolve_drawing_path")
+    if "_odf_length_to_px" in ob:
+        return check_odf_length()
+    if "/rel-type#" in ob:
+        return other_kinds_sweep(fmt)
     if "lookup-table-scope" in ob or "relationship-table-of-the-given-part" in ob or "relationships-of-the-slide-being-processed" in ob:
         return witness("dangling", fmt) or sweep(fmt, ("resolution", "bytes", "unit"))
     for lab, kind in (("#slide-part", "slide-target"), ("#drawing-relationship-part", "drawing-dir"), ("#sheet-relationship-part", "sheet-order")):
@@ -1111,7 +1166,10 @@ def search(ob, wit=None):
             if r:
                 return r
         # gaps / double numbers inside one unit (numbering across units is the obligation counter-starts-at-zero-once-per-document)
-        return sweep(fmt, ("numbering",), max_units=1)
+        r = sweep(fmt, ("numbering",), max_units=1)
+        if r is None and fmt in ("odt", "odg"):
+            r = witness("shared-media", fmt)
+        return r
     if "/numbering#" in ob:
         # the number an image carries: documents whose pictures are all present, one unit (gaps and restarts have their own obligations)
         return sweep(fmt, ("numbering",), max_units=1, kinds=("embedded",))
@@ -1140,11 +1198,67 @@ def search(ob, wit=None):
         if r is None and "content-type" in asp:
             # part names whose extension is not all lower case (IMG_0002.JPG): the content type is that of the lower-cased extension
             r = sweep(fmt, asp, seeds=(0,), count=15, ext_case=True)
+        if r is None and fmt in ODF_MIME:
+            # what META-INF/manifest.xml says about the pictures (typed, listed without a type, no manifest) changes nothing
+            for mf in ("untyped", "typed", "absent"):
+                scs = [simple(fmt, ["relative"], n_units=1, per_unit=2, ext="jpg")] + list(gen_scenarios(fmt, 12, 8, styles=("relative",)))
+                for sc in scs:
+                    sc.manifest = mf
+                    sc.note += f" manifest={mf}"
+                r = first_failure(scs, asp, dedup=fmt in ("odt", "odg"))
+                if r:
+                    break
         return r
     if "data_types.py" in ob:
         cls = ob.split("::")[1].split(".")[0] if "::" in ob else None
         return check_views(cls if cls and cls.endswith("Content") else None)
     return None
+
+
+def check_odf_length():
+    """`data_types._odf_length_to_px` and the width / height an ODF picture reports, on a grid of numerals x units, against exact rational
+    arithmetic: CSS absolute lengths at 96 dpi (px 1, in 96, cm 96/2.54, mm 96/25.4, pt 96/72, pc 16); units outside the table give None."""
+    from fractions import Fraction as Fr
+    dt = _imp("sharepoint2text.parsing.extractors.data_types")
+    f = getattr(dt, "_odf_length_to_px", None)
+    K = {"px": Fr(1), "in": Fr(96), "cm": Fr(9600, 254), "mm": Fr(960, 254), "pt": Fr(96, 72), "pc": Fr(16)}
+    nums = ["0", "1", "2", "3", "0.5", "1.5", "2.54", "10", "12.7", "17.59", "21.001", "72", "100", "254", "1234.567"]
+
+    def via_metadata(s):
+        img = dt.OpenDocumentImage(href="Pictures/a.png", name="a.png", width=s, height=s, image_index=1)
+        md = img.get_metadata()
+        return md.get("width"), md.get("height")
+    for unit, k in K.items():
+        for spell in (unit, unit.upper(), " " + unit):
+            for n in nums:
+                s = f"{n}{spell}"
+                want = Fr(n) * k
+                for how, got in ((f"_odf_length_to_px({s!r})", f(s) if f else None), (f"OpenDocumentImage(width={s!r}).get_metadata()['width']", via_metadata(s)[0])):
+                    if (f is None and how.startswith("_odf")) or (want < 1 and not how.startswith("_odf")):    # the metadata report no extent of 0
+                        continue
+                    if not isinstance(got, int) or abs(got - want) > Fr(1, 2) + want / 10**9:
+                        return {"target": how, "aspect": "pixel-size", "inputs": {"length": s}, "expected": f"{float(want):.3f} px rounded ({unit}: {float(k):.4f} px per unit at 96 dpi)",
+                                "observed": repr(got)}
+    for s in ("3em", "50%", "2ex", "1furlong"):
+        got = via_metadata(s)[0]
+        if got is not None:
+            return {"target": f"OpenDocumentImage(width={s!r}).get_metadata()['width']", "aspect": "pixel-size", "inputs": {"length": s},
+                    "expected": "None (not an absolute length)", "observed": repr(got)}
+    return None
+
+
+def other_kinds_sweep(fmt):
+    """Packages whose relationship parts list relationships of every other standard kind before / after the picture relationships, in the
+    Transitional and in the Strict namespace: the pictures come back all the same."""
+    if fmt not in ("xlsx", "docx", "pptx"):
+        return None
+    scs = []
+    for noise, strict in (("before", False), ("after", False), ("before", True), (None, True)):
+        for sc in [simple(fmt, ["relative"], n_units=1 if fmt == "docx" else 2, per_unit=2)] + list(gen_scenarios(fmt, 11, 6, styles=("relative", "absolute"), kinds=("embedded", "missing"))):
+            sc.noise, sc.strict = noise, strict
+            sc.note += f" other-kinds={noise} strict={strict}"
+            scs.append(sc)
+    return first_failure(scs, ("resolution", "bytes", "no-foreign", "unit"), dedup=False)
 
 
 def sweep(fmt, aspects, seeds=(0, 1), count=25, max_units=3, kinds=("embedded", "missing", "external"), ext_case=False):
